@@ -1240,16 +1240,96 @@ func Canon(v ssa.Value) ssa.Value {
 		if !ok || u.Op != token.MUL {
 			return v
 		}
-		switch u.X.(type) {
+		switch x := u.X.(type) {
 		case *ssa.Alloc, *ssa.FreeVar:
 			if d := SingleDef(u.X); d != nil {
 				v = d
 				continue
 			}
+		case *ssa.FieldAddr:
+			// s.queue where s is a struct made here and the field is given its
+			// value once in the whole program (the composite literal)
+			if al, ok := Canon(x.X).(*ssa.Alloc); ok {
+				if d := SingleFieldDef(al, x.Field); d != nil {
+					v = d
+					continue
+				}
+			}
 		}
 		return v
 	}
 	return v
+}
+
+// fieldStoreCount: how many instructions of the program write each struct
+// field (a store of a whole struct counts for each of its fields).
+var fieldStoreCount map[*types.Var]int
+
+// IndexFieldStores counts the writes to every struct field over fns.
+func IndexFieldStores(fns map[*ssa.Function]bool) {
+	fieldStoreCount = map[*types.Var]int{}
+	for fn := range fns {
+		for _, b := range fn.Blocks {
+			for _, in := range b.Instrs {
+				st, ok := in.(*ssa.Store)
+				if !ok {
+					continue
+				}
+				if fa, ok := st.Addr.(*ssa.FieldAddr); ok {
+					if fv := fieldAddrVar(fa); fv != nil {
+						fieldStoreCount[fv]++
+					}
+					continue
+				}
+				if s, ok := st.Val.Type().Underlying().(*types.Struct); ok {
+					for i := 0; i < s.NumFields(); i++ {
+						fieldStoreCount[s.Field(i)]++
+					}
+				}
+			}
+		}
+	}
+}
+
+func fieldAddrVar(fa *ssa.FieldAddr) *types.Var {
+	p, ok := fa.X.Type().Underlying().(*types.Pointer)
+	if !ok {
+		return nil
+	}
+	s, ok := p.Elem().Underlying().(*types.Struct)
+	if !ok || fa.Field >= s.NumFields() {
+		return nil
+	}
+	return s.Field(fa.Field)
+}
+
+// SingleFieldDef: the one value ever stored in field idx of the struct al
+// allocates — the field is written by a single instruction of the program, and
+// that instruction initialises al.
+func SingleFieldDef(al *ssa.Alloc, idx int) ssa.Value {
+	if fieldStoreCount == nil || al.Referrers() == nil {
+		return nil
+	}
+	var def ssa.Value
+	for _, r := range *al.Referrers() {
+		fa, ok := r.(*ssa.FieldAddr)
+		if !ok || fa.Field != idx || fa.Referrers() == nil {
+			continue
+		}
+		fv := fieldAddrVar(fa)
+		if fv == nil || fieldStoreCount[fv] != 1 {
+			return nil
+		}
+		for _, u := range *fa.Referrers() {
+			if st, ok := u.(*ssa.Store); ok && st.Addr == ssa.Value(fa) {
+				if def != nil {
+					return nil
+				}
+				def = st.Val
+			}
+		}
+	}
+	return def
 }
 
 // SameValue reports whether a and b are provably the same value (same SSA
